@@ -106,7 +106,11 @@ def gen_case(rng):
     c["cap"] = cap
     c["engine_class"] = rng.choice(["present"] * 6 + ["missing",
                                                       "ee_defined",
-                                                      "ee_undefined"])
+                                                      "ee_undefined",
+                                                      "ee_shared01",
+                                                      "ee_random"])
+    c["seed"] = rng.randrange(2 ** 31)
+    c["ee_pattern"] = [rng.random() < 0.5 for _ in range(12)]
     c["lm1_class"] = rng.choice(["absent"] * 6 + ["below", "equal", "above",
                                                   "zero"])
     lm1 = None
@@ -172,7 +176,7 @@ def build_config(c):
               "subcycles": 1, "timestep": 1.0}
     cfg = {"runner": {"workers": c["workers"]},
            "simulation": {"interfaces": list(c["interfaces"]), "steps": 20,
-                          "seed": 3, "load_dir": "load",
+                          "seed": c.get("seed", 3), "load_dir": "load",
                           "shooting_moves": list(c["moves"]),
                           "tis_set": tis},
            "orderparameter": {"class": "SiteOrder", "module": PLUGIN},
@@ -185,6 +189,16 @@ def build_config(c):
         cfg["engine_b"] = dict(engine)
         cfg["simulation"]["ensemble_engines"] = [
             ["engine"] if i % 2 == 0 else ["engine_b"] for i in range(n)]
+    elif ec == "ee_shared01":
+        # [0-] and [0+] share an engine that no other ensemble uses
+        cfg["engine_b"] = dict(engine)
+        cfg["simulation"]["ensemble_engines"] = [
+            ["engine_b"] if i < 2 else ["engine"] for i in range(n)]
+    elif ec == "ee_random":
+        cfg["engine_b"] = dict(engine)
+        cfg["simulation"]["ensemble_engines"] = [
+            ["engine_b"] if c["ee_pattern"][i % 12] else ["engine"]
+            for i in range(n)]
     elif ec == "ee_undefined":
         cfg["simulation"]["ensemble_engines"] = [
             ["engine"] if i != n - 1 else ["ghost_engine"]
